@@ -49,12 +49,13 @@ def register(P):
     P.KNOWN_DEMOS[_json.dumps({"oracle": "zero_window", "what": "no_timer_armed_while_data_waits_behind_zero_window"}, sort_keys=True)] = _demo_d18(P)
     P.ORACLE_COMPONENT["zero_window_probe"] = "vsock"
     P.ORACLE_COMPONENT["fin_sent"] = "vsock"
+    P.ORACLE_COMPONENT["fin_answered"] = "vsock"
     P.ORACLE_COMPONENT["nagle"] = "vsock"
     P.KNOWN_DEMOS[_json.dumps({"oracle": "stream", "what": "diverged_after_delivered_probe_was_resplit"}, sort_keys=True)] = _demo_d2(P)
     reg(P, "C18", ["UtpVerif.Props.C18"], ["stream_content", "nagle", "nagle_off"])
     reg(P, "C05", ["UtpVerif.Props.C05"], ["window", "slow_start", "cc_accounting"])
     reg(P, "C07", ["UtpVerif.Props.C07"], ["ack_timeliness", "ack_forcing", "window_reopen"])
-    reg(P, "C17", ["UtpVerif.Props.C17"], ["stream_content", "fin_sent", "reset", "rtx_timer"])
+    reg(P, "C17", ["UtpVerif.Props.C17"], ["stream_content", "fin_sent", "fin_answered", "reset", "rtx_timer"])
     reg(P, "C01", ["UtpVerif.Props.C01", "UtpVerif.Props.C01E2E"], ["stream_content", "read_content"], ["segs", "txring", "rx"])
     reg(P, "C02", ["UtpVerif.Props.C02"], ["calls_resolve", "ack_timeliness", "rtx_timer", "zero_window_probe", "window_reopen", "idle_promptness", "stuck"], ["txring", "rx"])
     reg(P, "C03", ["UtpVerif.Props.C03"], ["calls_resolve", "stream_content", "ack_honesty", "fin_sent", "eof_honest", "completion_honest", "read_content"], ["txring", "rx"])
